@@ -179,6 +179,15 @@ static unsigned char *far_take(size_t bytes, int *slot_out)
 }
 static void far_give(int slot) { far_busy[slot / FAR_SLOTS][slot % FAR_SLOTS] = 0; }
 
+/* ---------------------------------------------------------------- reuse
+ * By default a freed block is poisoned and kept in quarantine, so no address comes back during a run: good for catching
+ * use after free, but it hides everything that depends on malloc returning the address it was just given back (a remembered
+ * pointer that compares equal to a new node, an "is it the same buffer" test). In reuse runs the last freed block of exactly
+ * the requested size is handed out again at once, as glibc's per-size free lists do. */
+static int reuse_mode;
+static unsigned recent[8]; static int nrecent;
+unsigned g_reused;
+
 void simheap_reset(const struct simheap_cfg *cfg, uint64_t seed)
 {
     simheap_end_run();
@@ -190,6 +199,7 @@ void simheap_reset(const struct simheap_cfg *cfg, uint64_t seed)
     g_nhev = 0;
     fail_in_op = 0; fail_prob = 0; fail_bitmap = NULL; fail_nbits = 0; fail_suffix = 0;
     far_mode = 0; far_next = 0;
+    reuse_mode = (!SIM_REALFREE && g_run.plan) ? (int)g_run.plan->cfg[CF_REUSE] : 0; nrecent = 0;
 }
 
 void simheap_end_run(void)
@@ -231,8 +241,16 @@ static struct blk *blk_new(size_t size, int tag)
     b->user = real;
     b->far = 0;
 #else
-    { int slot = -1;
+    { int slot = -1, q;
       real = tag == TAG_ELEM ? far_take(alloc + 2 * CAN, &slot) : NULL;
+      if (real == NULL && reuse_mode) for (q = nrecent - 1; q >= 0; q--) {
+          struct blk *o = &blks[recent[q]];
+          if (!o->live && !o->released && !o->far && o->alloc == alloc && o->tag == tag) {
+              real = o->user - CAN; o->released = 1; quarantine_bytes -= o->alloc; g_reused++;
+              memmove(&recent[q], &recent[q + 1], sizeof recent[0] * (size_t)(nrecent - 1 - q)); nrecent--;
+              break;
+          }
+      }
       if (real == NULL) { slot = -1; real = __real_malloc(alloc + 2 * CAN); }
       if (real == NULL) return NULL;
       blks[nblks].far = slot + 1; }
@@ -286,6 +304,7 @@ static void blk_release(struct blk *b)
 #else
     memset(b->user, POISON, b->alloc);
     /* keep back canary region poisoned too; front canary stays */
+    if (reuse_mode) { if (nrecent == 8) { memmove(&recent[0], &recent[1], sizeof recent[0] * 7); nrecent--; } recent[nrecent++] = (unsigned)(b - blks); }
     quarantine_bytes += b->alloc;
     quarantine_trim();
 #endif
